@@ -277,13 +277,13 @@ impl StakeKeeper {
         validator_commission: Decimal,
         stake: Uint128,
     ) -> Decimal {
-        // calculate time since last update (in seconds)
-        let time_diff = current_time.minus_seconds(since.seconds()).seconds();
+        // calculate time since last update (in nanoseconds, so that no fraction of a second is counted twice or lost)
+        let time_diff = current_time.minus_nanos(since.nanos()).nanos();
 
         // using decimal here to reduce rounding error when calling this function a lot
         let reward = Decimal::from_ratio(stake, 1u128)
             * interest_rate
-            * Decimal::from_ratio(time_diff, 1u128)
+            * Decimal::from_ratio(time_diff, 1_000_000_000u128)
             / Decimal::from_ratio(YEAR, 1u128);
         let commission = reward * validator_commission;
 
